@@ -255,6 +255,127 @@ class SedovScale(Obligation):
         cx.eq('post-shock pressure ~ rho (r_shock/t)^2', cx['b_p2'] * s * s, cx['a_p2'] * lam ** (-om) * lam * lam, when=same)
 
 
+class SedovInterior(Obligation):
+    """interior of the Sedov flow: the whole _run (internal table of 2 points: the user's radius and the origin) with fminbound
+    replaced by a fresh value v and interp1d exact at its nodes.  With the generator of the similarity group
+    D = t d/dt + a0 r d/dr (a0 = 2/(k+2-omega), so D(r/r_shock) = 0) z3 decides: D(lam_want) = 0 for the lambda the code asks
+    fminbound to invert; the similarity functions lambda, f, g, h of sedov_funcs_standard at fixed v do not depend on r, t
+    (so the inverted v is a function of r/r_shock alone); and the returned fields obey D(rho) = -omega a0 rho,
+    D(u) = (a0 - 1) u, D(p) = (-omega a0 + 2 (a0 - 1)) p: the infinitesimal form of 'fields at equal r/r_shock(t) differ only by
+    t^(-omega a0), r_shock/t, (r_shock/t)^2'."""
+    uses_derivatives = True
+
+    def __init__(self, geom, gamma):
+        self.geom, self.gamma = geom, gamma
+        self.id = 'C10.sedov-interior.g%d.gamma=%s' % (geom, gamma)
+        self.modules = [H.mod(S.SM)]
+        self.functions = [H.mod(S.SM).Sedov._run, H.mod(S.SM).Sedov.sedov_funcs_standard, H.mod(S.SM).Sedov.physical]
+        self.bounds = 'rho0, eblast, omega, r, t symbolic; gamma fixed; internal table of 2 points; one user point behind the shock'
+        self.skip_validation = True
+        self.max_paths = 120
+        self.replay_tol = 2e-3
+        self.budget_s = 300
+
+    def shim_extra(self):
+        import scipy.optimize as so
+        from symx.engine import current
+        from symx.shim import Recorder
+
+        def fminbound(f, a, b, **kw):
+            current().note('lam_want', getattr(f.__self__, 'lam_want', None))
+            return current().fresh('vwant')
+
+        def interp1d(x, y, **kw):
+            xs = [term_of(v) for v in np.asarray(x, dtype=object).ravel()]
+            ys = list(np.asarray(y, dtype=object).ravel())
+
+            def g(q):
+                q = np.asarray(q, dtype=object)
+                out = np.empty(q.shape, dtype=object)
+                for i in range(out.size):
+                    qt = term_of(q.flat[i])
+                    hit = [k for k, xt in enumerate(xs) if xt is qt or xt == qt]
+                    out.flat[i] = ys[hit[0]] if hit else current().fresh('interp')
+                return out
+            return g
+        d = S.shim_extra(cut_at_jump=False)
+        d.update({'sci_opt': H.ModProxy(so, fminbound=fminbound), 'interp1d': interp1d, 'ExactSolution': Recorder})
+        return d
+
+    def build(self, mk):
+        s = S.make(mk, self.geom, self.gamma)
+        r, t = mk('r'), mk('t')
+        if Mode.symbolic(mk):
+            from symx.engine import current
+            r2_pre = (s.eblast / (s.alpha * s.rho0)) ** (1.0 / s.xg2) * t ** (2.0 / s.xg2)
+            current().assume(T.lt(term_of(r), term_of(r2_pre)))
+            sol = s._run(H.arr([r]), t, npts=2)
+            out = H.first(H.fields(sol))
+            # lam_want as left by the loop is that of the LAST table point (the origin); the one of the user's point is r/r2 as
+            # the code spells it
+            v = mk('v')
+            if s.solution_type != 'singular':
+                l, dl, f, g, h = s.sedov_funcs_standard(v)
+                out.update(l=l, f=f, g=g, h=h)
+            lw = [x for x in current().notes.get('lam_want', []) if x is not None]
+            if lw and not (term_of(lw[0]) is T.ZERO or term_of(lw[0]) == T.ZERO):
+                out['lam_want'] = lw[0]         # the first inversion requested is that of the user's point
+        else:
+            m = H.mod(S.SM)
+            real, rec = m.sci_opt, []
+
+            class Rec(object):
+                def __getattr__(self, n):
+                    return getattr(real, n)
+
+                def fminbound(self, f, a, b, **kw):
+                    rec.append(f.__self__.lam_want)
+                    return real.fminbound(f, a, b, **kw)
+            m.sci_opt = Rec()
+            try:
+                sol = s(np.array([float(r)]), t)
+            finally:
+                m.sci_opt = real
+            out = H.first(H.fields(sol))
+            if rec and rec[0] != 0:
+                # the real table runs from the largest radius (the user's point) inwards: the first inversion is the user's point
+                out['lam_want'] = rec[0]
+        out.update(r=r, t=t, omega=mk('omega'), xg2=s.xg2, r2=s.r2, _type=s.solution_type)
+        return out
+
+    def domain(self, V):
+        return S.domain(V, self.geom) + [T.gt(V('v'), T.ZERO)]
+
+    def claims(self, cx):
+        a0 = 2 / cx['xg2']
+        om = cx['omega']
+
+        def DL(name):
+            # logarithmic form D(f)/f, computed structurally (power-law factors drop out before the solver sees them)
+            fn = lambda cc: cc[name]
+            return cx.p('t') * cx.dlog(fn, 't') + a0 * cx.p('r') * cx.dlog(fn, 'r')
+
+        def zero(name):
+            v = cx[name]
+            if cx.symbolic:
+                tt = term_of(v)
+                return tt is T.ZERO or tt == T.ZERO
+            return float(v) == 0.0
+        inside = (cx['r'] < cx['r2'])
+        if not cx.symbolic:
+            inside = bool(inside)
+        cx.eq('D(r_shock) = a0 r_shock', DL('r2'), a0 + 0 * cx['r'])
+        if 'lam_want' in cx:
+            cx.eq('the lambda handed to fminbound is r/r_shock', cx['lam_want'] * cx['r2'], cx['r'])
+        if cx.symbolic and cx['_type'] != 'singular':
+            for k in ('l', 'f', 'g', 'h'):
+                cx.eq('similarity function %s at fixed v does not depend on (r, t)' % k, DL(k), 0 * cx['r'])
+        for name, k in (('density', -om * a0), ('velocity', a0 - 1), ('pressure', -om * a0 + 2 * (a0 - 1))):
+            if zero(name):
+                continue            # the vacuum hole (all fields 0) and u = 0 at the origin are trivially self-similar
+            cx.eq('D(%s)/%s = documented exponent' % (name, name), DL(name), k + 0 * cx['r'], when=inside)
+
+
 class GuderleyScale(Obligation):
     replay_limit_s = 300        # the real Guderley solve takes 20-40 s on an idle core, several times that under load
     def __init__(self, n, gamma):
@@ -339,4 +460,5 @@ def obligations(tier):
     for g in (1, 2, 3):
         for gam in ([Fraction(7, 5)] if tier == 'quick' else H.G_FULL):
             obs.append(SedovScale(g, gam))
+            obs.append(SedovInterior(g, gam))
     return obs
